@@ -369,10 +369,10 @@ func reference(c *Case) exp {
 			return ""
 		}}
 	case "center", "ljust", "rjust":
-		if in.K != "str" || p.K != "int" {
+		if (in.K != "str" && in.K != "int" && in.K != "float") || p.K != "int" {
 			return skip()
 		}
-		s := in.S
+		s := printed(in) // a number is padded as the text it prints as
 		w := int(p.I)
 		if w <= runeLen(s) {
 			return exact(s)
@@ -501,8 +501,26 @@ func reference(c *Case) exp {
 		default:
 			return skip()
 		}
-		if _, err := strconv.ParseUint(s, 10, 64); err != nil || p.K != "int" {
+		if p.K != "int" {
 			return skip()
+		}
+		if _, err := strconv.ParseUint(s, 10, 64); err != nil {
+			// not a whole non-negative number: "returns the original value for invalid input" - also a negative
+			// number where a digit is asked for (the sign position itself is left open)
+			digits := strings.TrimPrefix(s, "-")
+			if _, err2 := strconv.ParseUint(digits, 10, 64); err2 == nil && digits != s {
+				if p.I <= 0 || int(p.I) > len(s) {
+					return skip()
+				}
+				if c := s[len(s)-int(p.I)]; c != '-' {
+					return exact(string(c))
+				}
+				return skip()
+			}
+			if s == "" {
+				return skip()
+			}
+			return exact(s)
 		}
 		if p.I <= 0 {
 			return exact(s)
@@ -547,7 +565,7 @@ func reference(c *Case) exp {
 		}
 		return exact(r)
 	case "pluralize":
-		if in.K != "int" {
+		if in.K != "int" && in.K != "float" && in.K != "float32" {
 			return skip()
 		}
 		sing, plur := "", "s"
@@ -565,8 +583,8 @@ func reference(c *Case) exp {
 				return skip()
 			}
 		}
-		if in.I == 1 {
-			return exact(sing)
+		if (in.K == "int" && in.I == 1) || (in.K != "int" && in.F == 1) {
+			return exact(sing) // exactly one; 1.5 of something is plural
 		}
 		return exact(plur)
 	case "yesno":
@@ -750,6 +768,16 @@ func (c *Case) Exec(t *eng.T) {
 	if o2.Failed() || o2.S != out1 {
 		t.Fail(c.Filter+":route-mismatch", "%s: ApplyFilter gives %q, the template route gives %s", c.ID(), out1, o2)
 	}
+	// route 3 (text inputs): the filter tag, the filter written behind a filter that takes a parameter and changes
+	// nothing (cut of a byte no input contains)
+	if s, isText := goIn.(string); isText && !e.isLst {
+		src3 := "{% autoescape off %}{% filter cut:nul|" + strings.TrimPrefix(expr, "v|") + " %}{{ v }}{% endfilter %}{% endautoescape %}"
+		ctx["nul"] = "\x00"
+		_ = s
+		if o3 := px.Exec(tplFor(src3), ctx); o3.Failed() || o3.S != out1 {
+			t.Fail(c.Filter+":route-mismatch:filter-tag", "%s: ApplyFilter gives %q, {%% filter cut:nul|%s %%} around the input gives %s", c.ID(), out1, strings.TrimPrefix(expr, "v|"), o3)
+		}
+	}
 	switch {
 	case e.isLst:
 		if want := strings.Join(e.list, "\x1f"); out1 != want || len(list1) != len(e.list) {
@@ -778,6 +806,17 @@ func (c *WRCase) ID() string {
 }
 
 func (c *WRCase) Exec(t *eng.T) {
+	if c.Max == 0 {
+		// nothing to relate the value to: the documented result is 0 (Django catches the division by zero)
+		src := "{% widthratio a b c %}|{% widthratio a b c as w %}[{{ w }}]"
+		o := px.Exec(tplFor(src), pongo2.Context{"a": c.Cur, "b": c.Max, "c": c.Width})
+		t.Nontrivial()
+		t.Outcome(o.String())
+		if o.Failed() || o.S != "0|[0]" {
+			t.Fail("widthratio:zero-maximum", "%s renders %s, want \"0|[0]\"", c.ID(), o)
+		}
+		return
+	}
 	x := float64(c.Cur) / float64(c.Max) * float64(c.Width)
 	// exact rational: cur*width / max
 	numr, den := c.Cur*c.Width, c.Max
@@ -936,6 +975,13 @@ func run(r *eng.Runner) {
 			}
 		}
 	}
+	for _, v := range []univ.M{univ.Int(5), univ.Int(-12), univ.Int(12345), univ.Float(1.5)} {
+		for w := -1; w <= 12; w++ {
+			do("center", v, pi(w))
+			do("ljust", v, pi(w))
+			do("rjust", v, pi(w))
+		}
+	}
 	nw := 5
 	if q {
 		nw = 4
@@ -982,6 +1028,11 @@ func run(r *eng.Runner) {
 			do("get_digit", univ.Str(strconv.Itoa(v)), pi(pos))
 		}
 	}
+	for pos := -1; pos <= 5; pos++ {
+		for _, v := range []univ.M{univ.Int(-12), univ.Int(-7), univ.Str("abc"), univ.Str("1a"), univ.Str("a1"), univ.Str("1.5"), univ.Str("12 "), univ.Str("é1"), univ.Str("-"), univ.Str("x")} {
+			do("get_digit", v, pi(pos))
+		}
+	}
 	decs := []string{"34.23234", "34.0", "34.26", "39.56", "0.1", "0.12", "2.7182", "1234.5678", "0.0", "7.0", "0.004", "99.99", "99.999", "0.5", "1.5", "2.5", "0.125", "0.375", "-2.7182", "-34.26", "-0.3", "1000000.0", "3.0001", "12.34567", "0.049", "0.951", "9.96", "9.94", "100.0", "0.25"}
 	for _, d := range decs {
 		for p := -4; p <= 4; p++ {
@@ -996,6 +1047,11 @@ func run(r *eng.Runner) {
 		do("pluralize", univ.Int(v), nil)
 		do("pluralize", univ.Int(v), ps("es"))
 		do("pluralize", univ.Int(v), ps("y,ies"))
+	}
+	for _, v := range []univ.M{univ.Float(1.5), univ.Float(0.5), univ.Float(1), univ.Float(2), univ.Float(-1), univ.Float(1.0000001), {K: "float32", F: 1.25}, univ.Float(0)} {
+		do("pluralize", v, nil)
+		do("pluralize", v, ps("es"))
+		do("pluralize", v, ps("y,ies"))
 	}
 	grid := []univ.M{univ.Nil(), univ.Str(""), univ.Str("a"), univ.Int(0), univ.Int(1), univ.Bool(false), univ.Bool(true), univ.Float(0), univ.Float(2.5), univ.Ints(), univ.Ints(1),
 		univ.Float(0.5), univ.Float(-0.25), univ.Float(1e-9), {K: "float32", F: 0.75}, univ.Int(-1), {K: "uint8", U: 0}, {K: "uint8", U: 3}}
@@ -1023,10 +1079,11 @@ func run(r *eng.Runner) {
 		}
 	}
 
-	r.Group("widthratio", "c18.wr", "widthratio cur (-12..12) x max (-12..12 without 0) x width {1,10,100}, plain and `as` form (negative ratios round to the nearest integer as well)")
+	r.Group("widthratio", "c18.wr", "widthratio cur (-12..12) x max (-12..12; a maximum of 0 gives 0) x width {1,10,100}, plain and `as` form (negative ratios round to the nearest integer as well)")
 	for cur := -12; cur <= 12; cur++ {
 		for mx := -12; mx <= 12; mx++ {
 			if mx == 0 {
+				r.Do(&WRCase{Cur: cur, Max: 0, Width: 100})
 				continue
 			}
 			for _, w := range []int{1, 10, 100} {
